@@ -8,19 +8,21 @@
 
    bus <mode> <maxnames>,<maxrules>,<maxreplies> <probe>[,<probe>...] <op> ... -- <op>
        history ops (injection off), then "--", then the operation under test.
-       mode: fresh  = every failing index k gets its own bus + history
-             chain  = failed attempts whose snapshot is unchanged are followed by
-                      the next k on the same bus (the next attempt is the retry);
-                      a changed snapshot rebuilds the bus
-             pair   = like fresh but two allocations fail (k and k+d, d=1..3)
-       probe: hex(interface.member) of a signal the control client c0 emits to
+       Every failing index k gets its own bus + history (a forked child per
+       case streams the outcomes; if the bus dies - assertion, sanitizer report -
+       that is the outcome of this k and the next child continues with k+1).
+       mode: fresh          the k-th allocation fails (_dbus_set_fail_alloc_counter (k)), k = 0, 1, ...
+                            until the request is handled without any failure
+             pair:<g>,<g>.. two allocations fail: number k and number k+g, for every gap g given
+                            (decided by the interposed _dbus_decrement_fail_alloc_counter below)
+       probe: hex(member) of a signal v.P.<member> the control client c0 emits to
               observe the effect of the match rules ("-" for none)
        ops:   C                      connect a new client (index = order of C ops)
               H<i>                   Hello
               R<i>,<hexname>,<flags> RequestName
               L<i>,<hexname>         ReleaseName
               A<i>,<hexrule>         AddMatch        D<i>,<hexrule>  RemoveMatch
-              M<i>,<dest>,<tag>      method call v.T.Call(uint32 tag) to <dest> = :<j> | <hexname>
+              M<i>,<dest>,<tag>      method call v.T.Call(uint32 tag) to <dest> = :<j> | <hexname>, NO_AUTO_START
               Y<i>,:<j>,<tag>        method return to client j for call <tag>
               E<i>,:<j>,<tag>        error reply (v.T.Err) likewise
               S<i>,<hexmember>       broadcast signal v.P.<member>
@@ -28,9 +30,11 @@
    lib <what> <args>                 library leg, see lib_case ()
 
    Result of a bus case:
-     base=<snapshot> ## <n>*<outcome> ## ... ## end leak=<blocks outstanding after teardown>
+     base=<snapshot> ## <n>*<outcome> ## ... ## end k=<indices tried> crashes=<n> allocs=<allocations of the unfailed request>
    consecutive identical outcomes are merged (n = how many k).  An outcome is
-     f<0|1>|A[<messages per client>]|S[<snapshot>]|R[<messages of the retry>]|S2[<snapshot>]|P[<pending-reply probes>]|g<growth>
+     f<0|1>|A[<messages per client>]|S[<snapshot>]|R[<messages of the retry>]|S2[<snapshot>]|P[<pending-reply probes>]|leak=<blocks outstanding after teardown + dbus_shutdown>
+     f1|CRASH[<exit/signal>:<summary line of the sanitizer / assertion>]
+   (f = whether a failure was injected; the retry is made iff the requester got NoMemory).
    Unique names are printed as client indices (c<i>), "u?" if unknown. */
 #include "common.h"
 #include <stdarg.h>
